@@ -36,7 +36,6 @@ pub fn name_pool_c03() -> Vec<(&'static str, Shape)> {
     let ac = || Shape::inst(&[("a", Shape::F0), ("c", Shape::F1)]);
     vec![
         ("f", Shape::F0),
-        ("g", Shape::F0),
         ("i", a()),
         ("test:p/i@1.0.0", a()),
         ("test:p/i@1.2.0", ab()),
@@ -45,9 +44,7 @@ pub fn name_pool_c03() -> Vec<(&'static str, Shape)> {
         ("test:q/j@0.2.0", a()),
         ("test:q/j@0.2.5", ab()),
         ("test:q/j@0.3.0", a()),
-        ("test:r/k", Shape::inst(&[("a", Shape::F0), ("h", Shape::F1)])),
         ("test:r/k@0.0.3", a()),
-        ("test:r/k@0.0.4", a()),
         // one name with two incompatible types (a package takes one of them): merge conflicts
         ("m", Shape::F0),
         ("m", Shape::F1),
